@@ -20,6 +20,7 @@ SITE = ROOT / 'harness' / 'site'
 PY = os.environ.get('MOPEPGEN_PY', '/venv/bin/python')
 NPROC = int(os.environ.get('VERIF_NPROC', '16'))
 GUARD = 'MOPEPGEN_VERIF'
+REACH = {}        # function of the repository -> number of entries observed by the workers of this run (sys.monitoring)
 DEFAULT_CLASS_CEILING = 0.05     # known-finding cases per case of a workload class without a recorded ceiling
 
 
@@ -112,6 +113,10 @@ def shard_run(module: str, specs: list, nproc: int | None = None, timeout_s: flo
                 try:
                     j, r = json.loads(line)
                 except ValueError:
+                    continue
+                if j == -1:
+                    for k_, v_ in (r.get('reach') or {}).items():
+                        REACH[k_] = REACH.get(k_, 0) + v_
                     continue
                 results[j] = r
         if p.returncode not in (0, None) and p.returncode != -9:
@@ -251,6 +256,20 @@ class Report:
         distinct = len(self.features)
         if not self.violations and distinct < self.min_nontrivial:
             self.inconclusive.append(f'only {distinct} distinct non-trivial cases (< {self.min_nontrivial})')
+        # reach counters of the property's anchor files (what the workload actually entered, and how often)
+        try:
+            anchors = []
+            for line in open(ROOT / 'properties.jsonl'):
+                pj = json.loads(line)
+                if pj.get('id') == self.prop:
+                    anchors = pj.get('anchors', {}).get('files', [])
+            for k_, v_ in REACH.items():
+                if any(k_.startswith(a + ':') for a in anchors):
+                    self.reached[k_] = self.reached.get(k_, 0) + v_
+            self.extra['reached_functions_in_anchor_files'] = len(self.reached)
+            self.extra['reached_functions_total'] = len(REACH)
+        except Exception:
+            pass
         cov = {
             'evaluations': int(self.evaluations),
             'distinct_nontrivial': int(distinct),
